@@ -10,8 +10,19 @@ def to_operator_harness():
     return Harness('S1.to_operator', FAM, [rx], 'c03_to_operator.c', shapes=shapes, opts=['--unwind', '8'], timeout=300, mem_gb=6, inputs=['t', 'unary'],
                    note='every text of N bytes over the 16 operator characters, unary or not (FNV-1a dispatch executed symbolically)')
 
+def precedence_harness():
+    from props.parser_family import FAM as PF, P
+    rx = r'^chaiscript::parser::' + P + r'Operator_Matches::is_match\(unsigned long, std::basic_string_view<char, std::char_traits<char> >\) const$'
+    PRE = '_ZN10chaiscript6parser17ChaiScript_ParserINS_4eval6TracerIJNS2_18Noop_Tracer_DetailEEEENS_9optimizer9OptimizerIJNS6_12Partial_FoldENS6_13Unused_ReturnENS6_13Constant_FoldENS6_2IfENS6_6ReturnENS6_9Dead_CodeENS6_5BlockENS6_8For_LoopENS6_11Assign_DeclEEEELm512EE'
+    gm, go = PRE + '18m_operator_matchesE', PRE + '11m_operatorsE'
+    d = {'IS_MATCH': core.csym(PF, rx), 'MATCHES': '((char*)&g_%s)' % gm, 'OPERATORS': '((char*)&g_%s)' % go}
+    h = Harness('S3.precedence_table', PF, [rx], 'c03_precedence.c', shapes=[dict(d, NLEN=n, _tag='text length=%d' % n, _witness=('witness: not an operator',) + (('witness: operator',) if n <= 2 else ())) for n in (1, 2, 3)],
+                opts=['--unwind', '3', '--unwindset', 'F_memcmp.0:4,F_bcmp.0:4,eq.0:4,eq.1:4,main.0:4,main.1:13'], timeout=300, mem_gb=6, inputs=['s', 'g'], note='level 0..13 and text over the 16 operator characters symbolic; the table object is the real constant emitted from the IR')
+    h.need_globals = [gm, go]
+    return h
+
 def harnesses(tier):
-    hs = [to_operator_harness()]
+    hs = [to_operator_harness(), precedence_harness()]
     for k in C09.KINDS:
         h = C09.node_harness(k); h.name = 'S4.' + h.name[2:]; hs.append(h)
     e = C07.equation_harness(); e.name = 'S4.Equation'; hs.append(e)
@@ -20,4 +31,4 @@ def harnesses(tier):
     return hs
 
 ASSUMPTIONS = ['per-construct reference semantics are written in the harnesses (C); children are abstract', 'the whole-program statement is the induction over these steps (argued, not solved)']
-OUTSIDE = ['precedence/associativity of the real Operator() recursion (S3), operator tokenisation (S2)', 'Ranged_For, Fun_Call, Lambda, Def/eval_function, classes/attributes, containers as values (C12)']
+OUTSIDE = ['the Operator(level) recursion that climbs the precedence table and its associativity (the table itself: S3), operator tokenisation (S2)', 'Ranged_For, Fun_Call, Lambda, Def/eval_function, classes/attributes, containers as values (C12)']
